@@ -298,10 +298,10 @@ def run_property(prop, rules, level, explanation, assumptions, tier, all_targets
             R.undecided(rid, "anchor", "kind=anchor-missing: %s (the rule cannot be evaluated on this shape of the code)" % e)
         except SystemExit:
             raise
-        except Exception as e:  # a crash of the checker is not a verdict
-            traceback.print_exc()
-            print("ERROR: rule %s crashed: %r" % (rid, e))
-            return 2
+        except Exception as e:  # a crash of a rule is not a verdict: the rule is undecided on this tree, the others still run
+            tb = traceback.format_exc().strip().split("\n")
+            print("RULE-CRASH rule=%s %r at %s" % (rid, e, tb[-3].strip() if len(tb) >= 3 else ""))
+            R.undecided(rid, "crash", "the rule crashed on this shape of the code (%r); it decides nothing here" % (e,))
     if tier == "thorough" and not os.environ.get("VERIF_SUBRUN"):
         import selftest
         st = selftest.run(prop)
